@@ -204,6 +204,28 @@ def _flag_sites(bv, c, l, want, depth=0, W=None):
                 return None
             out += sub
             continue
+        if src is not None and src.get("p") and not neg and _follow_fields(bv, src) is not None:
+            # a field of a field (.. of an inlined helper's returned tuple, delivered as Poll::Ready(tuple)): follow the
+            # aggregates that built it, alternative by alternative
+            ends = _follow_fields(bv, src)
+            if ends is not None:
+                okf = True
+                for (kind_, val_, bi_) in ends:
+                    if kind_ == "const":
+                        if val_ in (0, 1):
+                            if bool(val_) == want:
+                                out.append((bv, bi_, None))
+                        else:
+                            okf = False
+                    else:
+                        sub = _flag_sites(bv, c, val_, want, depth + 1, W)
+                        if sub is None:
+                            okf = False
+                        else:
+                            out += sub
+                if okf:
+                    continue
+                return None
         if src is not None and src.get("p") and len(src["p"]) == 1 and src["p"][0].get("k") == "field" and not neg:
             # `let (a, flag) = (x, cond);`: the flag is a field of a tuple built once — read the operand it was built from
             tds = [d for d in bv.defs.get(src["l"], []) if d[0] in bv.reach0]
@@ -254,6 +276,54 @@ def _flag_sites(bv, c, l, want, depth=0, W=None):
         if not _readable_cond(t):
             return None
         out.append((bv, bi, t))
+    return out
+
+
+def _follow_fields(bv, pl, depth=0):
+    """Value of the place `local.proj..` read through the aggregates that define the local:
+    [("local", l, block) | ("const", value, block)], or None when a step is not an aggregate field."""
+    fields = [e for e in pl.get("p", []) if e["k"] not in ("downcast", "deref")]
+    if any(e["k"] != "field" for e in fields):
+        return None
+    return _ff(bv, pl["l"], fields, None, depth)
+
+
+def _ff(bv, l, fields, at, depth):
+    if depth > 12:
+        return None
+    if not fields:
+        return [("local", l, at)]
+    e, rest = fields[0], fields[1:]
+    ds = [d for d in bv.defs.get(l, []) if d[0] in bv.reach0]
+    if not ds:
+        return None
+    out = []
+    for (bi, si, kind, x) in ds:
+        if kind != "rv":
+            return None
+        if x["k"] == "use":
+            p2 = x["o"].get("m") or x["o"].get("c")
+            if p2 is None:
+                return None
+            f2 = [q for q in p2.get("p", []) if q["k"] not in ("downcast", "deref")]
+            if any(q["k"] != "field" for q in f2):
+                return None
+            sub = _ff(bv, p2["l"], f2 + fields, bi, depth + 1)
+        elif x["k"] == "agg" and e["i"] < len(x.get("ops", [])):
+            op = x["ops"][e["i"]]
+            if "k" in op:
+                sub = None if rest else [("const", lib.term_const(bv.crate, ("const", op["k"])), bi)]
+            else:
+                p2 = op.get("m") or op.get("c")
+                f2 = [q for q in p2.get("p", []) if q["k"] not in ("downcast", "deref")]
+                if any(q["k"] != "field" for q in f2):
+                    return None
+                sub = _ff(bv, p2["l"], f2 + rest, bi, depth + 1)
+        else:
+            return None
+        if sub is None:
+            return None
+        out += sub
     return out
 
 
@@ -602,7 +672,12 @@ def run(F, R):
                 ft = rv.trace_local(l)
                 es = [(a, b) for (a, b, tr) in rv.bool_edges(lambda t: t == ft, whole=True) if tr]
                 if es and rv.dominated_by_edge(rbi, es):
-                    flag = l
+                    # several locals can carry the same value (the flag and the temporary it was computed in): the flag is
+                    # the one that is also reset inside the loop
+                    comps_ = rv.sccs()
+                    has_reset = any(v_ is rv and tm_ is None and any(b_ in L_ for L_ in comps_) for v_, b_, tm_ in fs_)
+                    if flag is None or has_reset:
+                        flag = l
         if flag is None:
             R.inconclusive("C18-R4", "flag", "no boolean flag guards the report call")
         else:
@@ -628,9 +703,11 @@ def run(F, R):
 
             def eq_os_of(v_):
                 return lib.equal_edges(v_, lambda t: eq_atom(v_, ("call", "std::cmp::PartialEq::eq", t[2])))
-            fin_ok = bool(sites_true) and all((some_fin_of(v_) and v_.dominated_by_edge(b, some_fin_of(v_))) or (tm_ is not None and _implies(W, v_, tm_, _is_some_finish)) for v_, b, tm_ in sites_true)
+            # a site inside `if flag { .. }` that sets the flag again (e.g. `flag = !reported`) keeps it as it was
+            keeps = lambda v_, b: v_ is rv and bool(flag_true) and rv.dominated_by_edge(b, flag_true)
+            fin_ok = bool(sites_true) and all(keeps(v_, b) or (some_fin_of(v_) and v_.dominated_by_edge(b, some_fin_of(v_))) or (tm_ is not None and _implies(W, v_, tm_, _is_some_finish)) for v_, b, tm_ in sites_true)
             R.check("C18-R4", "flag-set-only-if-finish-time", fin_ok, "flag set only when a finish time is stored", "the flag is set without a stored finish time")
-            ver_ok = bool(sites_true) and all((eq_os_of(v_) and v_.dominated_by_edge(b, eq_os_of(v_))) or (tm_ is not None and _implies(W, v_, tm_, eq_atom)) for v_, b, tm_ in sites_true)
+            ver_ok = bool(sites_true) and all(keeps(v_, b) or (eq_os_of(v_) and v_.dominated_by_edge(b, eq_os_of(v_))) or (tm_ is not None and _implies(W, v_, tm_, eq_atom)) for v_, b, tm_ in sites_true)
             R.check("C18-R4", "flag-set-only-on-target-version", ver_ok, "flag set only when a stored target version == config.os.version", "the flag is set although no stored target version equals the running version (a missing one compared as a default value counts as not stored)")
             okE = []
             for sb in sorted(rv.reach0):
